@@ -73,10 +73,12 @@ def run(ctx, broken):
         for name in ("and", "xor"):
             # a small aliased input keeps the forged high part next to floor((r-1) / 2^n): the assignment that a guard with a
             # slightly wrong modulus bound lets through; a large one exercises the range check of the guard difference
-            va, vb = rng.choice([rng.below(1 << 16), rng.below(1 << 16), rng.fe() % (1 << 250)]), rng.fe()
-            k = rng.below(2)
-            src = "w %s;w %s;%s %d $0 $1" % (hx(va if k == 0 else vb), hx(vb if k == 0 else va), name, pairs)
-            specs.append((src, k, va, [name, "alias-x-plus-r"]))
+            # 0 / 1: the boundary of the canonical guard (alias == r exactly passes a `<= r` guard)
+            for va in (0, 1, rng.choice([rng.below(1 << 16), rng.below(1 << 16), rng.fe() % (1 << 250)])):
+                vb = rng.fe()
+                k = rng.below(2)
+                src = "w %s;w %s;%s %d $0 $1" % (hx(va if k == 0 else vb), hx(vb if k == 0 else va), name, pairs)
+                specs.append((src, k, va, [name, "alias-x-plus-r"]))
     alias = full_alias_cases(ctx, specs)
     r.run(cases(rng, ctx.tier) + alias + cancel_cases(rng, ("logic",), 1 if ctx.tier == "quick" else 8))
     st = r.report(broken)
